@@ -779,7 +779,11 @@ func tailFile(p string) string {
 	return string(b)
 }
 
+// ReplayCoop tells a check's Replay function that it runs in the controlled-scheduler build.
+var ReplayCoop bool
+
 func doReplay(check *Check, path string, coop bool) int {
+	ReplayCoop = coop
 	b, err := os.ReadFile(path)
 	if err != nil {
 		fmt.Println(err)
@@ -793,7 +797,8 @@ func doReplay(check *Check, path string, coop bool) int {
 	// cases found by a worker of the controlled-scheduler build are replayed by that build
 	if check.CoopWorkers > 0 && !coop {
 		plain, _ := v.Repro["plain"].(bool)
-		if c, ok := v.Repro["coop"].(bool); (ok && c) || (!ok && !plain && check.Level == "model_checking") {
+		part, _ := v.Repro["part"].(string)
+		if c, ok := v.Repro["coop"].(bool); (ok && c) || part == "coop" || (!ok && !plain && check.Level == "model_checking") {
 			self, _ := os.Executable()
 			cmd := exec.Command(self+"-coop", "--coop", "--replay", path)
 			cmd.Stdout, cmd.Stderr = os.Stdout, os.Stderr
